@@ -34,10 +34,12 @@ def _collect_codes():
                 walk(getattr(o, "__wrapped__", o).__code__)
             if isinstance(o, type) and o.__module__ == name:
                 for a in list(vars(o).values()):
-                    f = a.__func__ if isinstance(a, (staticmethod, classmethod)) else a
-                    f = getattr(f, "__wrapped__", f)
-                    if isinstance(f, types.FunctionType):
-                        walk(f.__code__)
+                    cands = [a.fget, a.fset, a.fdel] if isinstance(a, property) else [a]
+                    for f in cands:
+                        f = f.__func__ if isinstance(f, (staticmethod, classmethod)) else f
+                        f = getattr(f, "__wrapped__", f)
+                        if isinstance(f, types.FunctionType):
+                            walk(f.__code__)
     return [c for c in codes if os.path.realpath(c.co_filename).startswith(os.path.realpath(REPO))]
 
 
